@@ -16,7 +16,7 @@ EXPLANATION = (
     "already-computed test; every Promise field access is inside the condition, the delivered flag is monotone and first-wins; "
     "Future.deref may turn an exception into the timeout value only when the future is not done."
 )
-DECIDES = "lock extent around the delay thunk and its computed-test, promise field discipline (locked, guarded, monotone), future handler conditioning, realized? sources"
+DECIDES = "lock extent around the delay thunk and its computed-test, promise field discipline (locked, guarded, monotone), future handler conditioning, realized? sources, timeout reaching the wait primitive as a bounded float"
 DECLINED = "which thread wins a race; timing of timed derefs; behaviour of concurrent.futures itself"
 TRUSTED = ["threading.Lock/RLock/Condition semantics", "concurrent.futures.Future.result()/done() contract"]
 ASSUMPTIONS = ["an update function handed to Atom.swap is not a critical section (the retry loop runs it in every racing thread)"]
